@@ -197,6 +197,15 @@ func (ec *evalCtx) havocCall(call *ast.CallExpr, fn *types.Func, recv Value, arg
 				}
 			}
 		}
+		if ok && len(leaves) > 0 {
+			if foreignStruct(t) {
+				sig := ""
+				for _, l := range leaves {
+					sig += l.Sort.Kind[:1]
+				}
+				return App(fmt.Sprintf("havoc:%s#%d/%s.opaque", name, i, sig), SInt, leaves...)
+			}
+		}
 		return ec.e().freshValue(ec.st, hint, t, false)
 	}
 	noteErr := func(v Value, t types.Type) Value {
@@ -409,7 +418,13 @@ func (ec *evalCtx) applyContract(c *Contract, fn *types.Func, call *ast.CallExpr
 		if callSig != nil && i < callSig.Results().Len() {
 			rt = callSig.Results().At(i).Type()
 		}
-		rv := e.freshValue(ec.st, stripPkg(c.Name)+".result", rt, false)
+		var rv Value
+		if c.Pure {
+			rv = ec.pureResult(c, fn, i, rt, recv, args)
+		}
+		if rv == nil {
+			rv = e.freshValue(ec.st, stripPkg(c.Name)+".result", rt, false)
+		}
 		results = append(results, rv)
 		if n := res.At(i).Name(); n != "" && n != "_" {
 			scope[n] = rv
@@ -636,7 +651,7 @@ func (ec *evalCtx) inlineCall(c *Contract, fn *types.Func, call *ast.CallExpr, r
 	if ec.fc.depth > 8 {
 		panic(unsupported("inline depth"))
 	}
-	sub := &FnCtx{e: e, pkg: pkg, info: pkg.TypesInfo, decl: fd, body: fd.Body, c: nil, name: ec.fc.name + ">" + c.Name,
+	sub := &FnCtx{e: e, pkg: pkg, info: pkg.TypesInfo, decl: fd, body: fd.Body, c: nil, name: ec.fc.name + ">" + c.Name, firedWhere: map[string]bool{},
 		counters: ec.fc.counters, modified: map[types.Object]bool{}, depth: ec.fc.depth + 1}
 	sub.sig = pkg.TypesInfo.Defs[fd.Name].Type().(*types.Signature)
 	sub.index()
@@ -820,4 +835,89 @@ func firstOrNil(xs []ast.Expr) ast.Expr {
 		return nil
 	}
 	return xs[0]
+}
+
+// pureResult: for a contract marked `pure` the result is a function of the
+// argument values (user expressions are assumed deterministic): every scalar
+// leaf is an uninterpreted function of the argument leaves.
+func (ec *evalCtx) pureResult(c *Contract, fn *types.Func, idx int, rt types.Type, recv Value, args []Value) Value {
+	var leaves []*Term
+	ok := true
+	var flat func(v Value)
+	flat = func(v Value) {
+		switch x := v.(type) {
+		case *Term:
+			leaves = append(leaves, x)
+		case *StructV:
+			for _, n := range x.Names {
+				flat(x.F[n])
+			}
+		case *IfaceV:
+			leaves = append(leaves, x.Tag, x.Id)
+		case *FuncV:
+			leaves = append(leaves, x.Id)
+		case *SliceV:
+			if x.Len.IsInt() && x.Len.Int.Int64() <= 16 {
+				for i := int64(0); i < x.Len.Int.Int64(); i++ {
+					flat(x.At(Int(i)))
+				}
+			} else {
+				ok = false
+			}
+		case nil:
+		default:
+			ok = false
+		}
+	}
+	if recv != nil {
+		flat(recv)
+	}
+	for _, a := range args {
+		flat(a)
+	}
+	if !ok {
+		return nil
+	}
+	sig := ""
+	for _, l := range leaves {
+		sig += l.Sort.Kind[:1]
+	}
+	base := fmt.Sprintf("pure:%s#%d/%s", fn.Origin().FullName(), idx, sig)
+	var build func(t types.Type, nm string) Value
+	build = func(t types.Type, nm string) Value {
+		if isStringLike(t) {
+			return App(nm, SStr, leaves...)
+		}
+		if isErrorType(t) {
+			return App(nm, SInt, leaves...)
+		}
+		switch u := t.Underlying().(type) {
+		case *types.Basic:
+			if u.Info()&types.IsBoolean != 0 {
+				return App(nm, SBool, leaves...)
+			}
+			return App(nm, SInt, leaves...)
+		case *types.Struct:
+			sv := &StructV{F: map[string]Value{}}
+			for i := 0; i < u.NumFields(); i++ {
+				f := u.Field(i)
+				v := build(f.Type(), nm+"."+f.Name())
+				if v == nil {
+					return nil
+				}
+				sv.Names = append(sv.Names, f.Name())
+				sv.F[f.Name()] = v
+			}
+			return sv
+		case *types.Interface:
+			return &IfaceV{Tag: App(nm+".tag", SInt, leaves...), Id: App(nm+".id", SInt, leaves...), Payloads: map[string]Value{}}
+		case *types.Pointer, *types.Signature, *types.Chan:
+			return nil
+		}
+		return nil
+	}
+	if foreignStruct(rt) {
+		return App(base+".opaque", SInt, leaves...)
+	}
+	return build(rt, base)
 }
